@@ -425,6 +425,28 @@ fn taint_stage(args: &[String]) -> Value {
     json!({"stage": "taint", "running_on_valgrind": on_vg, "kernels": names})
 }
 
+/// Whole pipeline under memcheck with the RNG output (xi || rnd) marked undefined: every branch or
+/// address that depends on it is reported by valgrind; the driver compares the reporting sites with
+/// the allow-list of public-data sites (values derived from rho, c~ and the final signature).
+fn taint_pipeline(args: &[String]) -> Value {
+    let set: u32 = args[0].parse().unwrap();
+    let seed: u64 = args[1].parse().unwrap();
+    let n: u64 = args[2].parse().unwrap();
+    let mut out = [0u8; 4627];
+    let mut rng = FixedRng { buf: [0u8; 64], pos: 0 };
+    for i in 0..n {
+        rng.buf = pipeline_input(seed, 2000 + i);
+        rng.pos = 0;
+        make_undefined(&mut rng.buf);
+        eprintln!("TAINT-PIPELINE-BEGIN {set} {i}");
+        let len = pipeline_call(set, &mut rng, &[0x42u8; 16], &mut out);
+        eprintln!("TAINT-PIPELINE-END {set} {i} {len}");
+        make_defined(&mut out);
+        make_defined(&mut rng.buf);
+    }
+    json!({"stage": "taintpipe", "set": set, "runs": n, "running_on_valgrind": running_on_valgrind()})
+}
+
 fn main() {
     let args: Vec<String> = std::env::args().collect();
     if args.len() < 2 {
@@ -435,6 +457,7 @@ fn main() {
         "pipeline" => (pipeline(&args[2..]), args.get(6)),
         "kernels" => (kernels_stage(&args[2..4]), args.get(4)),
         "taint" => (taint_stage(&args[2..3]), args.get(3)),
+        "taintpipe" => (taint_pipeline(&args[2..5]), args.get(5)),
         "one" => {
             let set: u32 = args[2].parse().unwrap();
             let bytes: Vec<u8> = (0..64).map(|i| u8::from_str_radix(&args[3][2 * i..2 * i + 2], 16).unwrap()).collect();
